@@ -188,6 +188,55 @@ def _has_property_with_setter(repo, ci: ClassInfo, name: str) -> Tuple[bool, boo
     return has_prop, has_setter
 
 
+def _name_targets(n):
+    out = []
+    for t in assign_targets(n):
+        if isinstance(t, (ast.Tuple, ast.List)):
+            out += [e for e in t.elts if isinstance(e, ast.Name)]
+        else:
+            out.append(t)
+    return out
+
+
+def _rebinding_preserves(repo, init: FunctionInfo, n: ast.AST, p: str) -> bool:
+    """`p = <value>` keeps the caller's object unless a test on p itself chose a
+    default: every alternative of the value (branches followed through locals,
+    E-GUARD facts) is the parameter p, or sits under a fact that mentions p"""
+    from .sem import guarded_values, xt
+
+    probe = ast.Name(id=p, ctx=ast.Load())
+    # the value of p just after the statement: evaluate at the next use of p
+    nxt = None
+    for m in own_nodes(init.node):
+        if isinstance(m, ast.Name) and m.id == p and isinstance(m.ctx, ast.Load) and getattr(m, "lineno", 0) >= getattr(n, "lineno", 0):
+            st = enclosing_stmt(m)
+            if st is not n and not any(st is x for x in ast.walk(n)):
+                nxt = st
+                break
+    if nxt is None:
+        return False
+    try:
+        alts = guarded_values(repo, init, probe, nxt)
+    except AnalysisError:
+        return False
+    if not alts:
+        return False
+    for conds, v, _ in alts:
+        if xt(v) == p:
+            continue
+        mentions = False
+        for ctext_, _pol in conds:
+            try:
+                ce = ast.parse(ctext_, mode="eval")
+            except SyntaxError:
+                continue
+            if any(isinstance(x, ast.Name) and x.id == p for x in ast.walk(ce)):
+                mentions = True
+        if not mentions:
+            return False
+    return True
+
+
 def check_a(ck, repo):
     _store_cache.clear()
     for ci in estimator_classes(repo):
@@ -230,13 +279,15 @@ def check_a(ck, repo):
         pset = set(params)
         for n in own_nodes(init.node):
             if isinstance(n, (ast.Assign, ast.AugAssign)):
-                for t in assign_targets(n):
+                for t in _name_targets(n):
                     if isinstance(t, ast.Name) and t.id in pset:
                         tests = enclosing_tests(n, init.node)
-                        if isinstance(n, ast.AugAssign) or not any(t.id in names_in(tt) for tt, _ in tests):
+                        if isinstance(n, ast.AugAssign):
                             ck.violated("C01.a", init, n, f"parameter '{t.id}' is overwritten unconditionally before being stored (clone() checks identity)")
-                        else:
+                        elif any(t.id in names_in(tt) for tt, _ in tests) or _rebinding_preserves(repo, init, n, t.id):
                             ck.holds("C01.a", init, n, "default substitution guarded by a test on the parameter itself")
+                        else:
+                            ck.violated("C01.a", init, n, f"parameter '{t.id}' is overwritten unconditionally before being stored (clone() checks identity)")
                     elif is_self_attr(t) and t.attr in pset:
                         v = n.value
                         p = _param_of_expr(v, pset) if not isinstance(n, ast.AugAssign) else None
